@@ -323,6 +323,12 @@ def worker(orders, dumps):
             except Exception as exc:
                 fails.append("%s order %s: edit after dumping: %s: %s" % (kind, order, type(exc).__name__, exc))
             text = texts[0]
+            try:
+                now = obj.dumps()
+                kw = {}
+                fails += core.file_cycle(obj, now, "%s order %s" % (kind, order), "out.%s" % kind, dump_kw=kw)
+            except Exception as exc:
+                fails.append("%s order %s: writing to files: %s: %s" % (kind, order, type(exc).__name__, exc))
             for t_i, t in enumerate(texts):
                 bad = caller_order(kind, order, t)
                 if bad:
